@@ -173,3 +173,30 @@ for nm, fn, arr in [('buffer_qr', 'add_question_response_record', 'm_query_respo
                       post='  if (g_exc != 0) { CANARY("output failure reachable"); }',
                       note='between calls no array has reached max(1, max_block_items); a block is written exactly when the add reports full(); '
                            'the result is non-zero exactly when a block was written and equals the bytes appended'))
+
+# ---------------------------------------------------------------- block parameter selection (keeps "active index < number of parameter sets", which write_block() relies on)
+_N = '$this->m_file_preamble.m_block_parameters.n'
+SAP_C = '''
+__CPROVER_requires(__CPROVER_w_ok($this, sizeof(*$this)) && g_exc == 0 && $this->m_active_block_parameters < ''' + _N + ''')
+__CPROVER_assigns($this->m_active_block_parameters)
+__CPROVER_ensures(g_exc == 0 && ($ret != 0) == ((unsigned long)$1 < ''' + _N + '''))
+__CPROVER_ensures($ret ? $this->m_active_block_parameters == $1 : $this->m_active_block_parameters == @A0)
+__CPROVER_ensures($this->m_active_block_parameters < ''' + _N + ''')
+'''
+UNITS.append(Unit('exp.set_active_block_parameters', (EXP + 'set_active_block_parameters', None), contract=SAP_C, prelude=P, pre_c=PRE2, extern_records=EXT,
+                  stubs=['seq_[A-Za-z0-9_]+__size'], ghost=[('unsigned int', 'A0', '$this->m_active_block_parameters')], auto_inline=[r'FilePreamble__block_parameters_size'],
+                  setup='  static struct CdnsExporter obj; unsigned int a_i;\n  __CPROVER_assume(obj.m_active_block_parameters < obj.m_file_preamble.m_block_parameters.n);\n', args=['&obj', 'a_i'],
+                  props=['C12', 'C04', 'C03'], timeout=300, post='  if (!r) { CANARY("refusal reachable"); }',
+                  note='an index outside the preamble\'s list of parameter sets is refused and changes nothing; the active index always addresses an existing set'))
+ABP_C = '''
+__CPROVER_requires(__CPROVER_w_ok($this, sizeof(*$this)) && __CPROVER_r_ok($1, sizeof(*$1)) && g_exc == 0 && $this->m_active_block_parameters < ''' + _N + ''' && ''' + _N + ''' < (1UL << 31))
+__CPROVER_requires(SEQ_INV_BlockParameters($1))
+__CPROVER_assigns($this->m_file_preamble.m_block_parameters)
+__CPROVER_ensures(g_exc == 0 && ''' + _N + ''' == @N0 + 1 && $ret == (unsigned int)@N0 && $this->m_active_block_parameters < ''' + _N + ''')
+__CPROVER_ensures($this->m_file_preamble.m_block_parameters.wi == @N0 ==> ($this->m_file_preamble.m_block_parameters.wv.storage_parameters.ticks_per_second == $1->storage_parameters.ticks_per_second && $this->m_file_preamble.m_block_parameters.wv.storage_parameters.max_block_items == $1->storage_parameters.max_block_items))
+'''
+UNITS.append(Unit('exp.add_block_parameters', (EXP + 'add_block_parameters', None), contract=ABP_C, prelude=P, pre_c=PRE2, extern_records=EXT,
+                  stubs=['seq_[A-Za-z0-9_]+__(size|push_back)'], ghost=[('unsigned long', 'N0', _N)], auto_inline=[r'FilePreamble__add_block_parameters'],
+                  setup='  static struct CdnsExporter obj; static struct BlockParameters a_bp;\n  __CPROVER_assume(obj.m_active_block_parameters < obj.m_file_preamble.m_block_parameters.n && obj.m_file_preamble.m_block_parameters.n < (1UL << 31) && SEQ_INV_BlockParameters(&a_bp));\n', args=['&obj', '&a_bp'],
+                  props=['C12', 'C04'], timeout=300,
+                  note='a new parameter set is appended to the preamble\'s list and its index returned; existing sets and the active index are untouched'))
